@@ -153,7 +153,6 @@ Q q_ceil()
     vf_assert((R - 1) * W(CD) < num && num <= R * W(CD), "ceil: r-1 < d <= r exactly");
     vf_assert(r == std::chrono::ceil<STo>(SFrom{c}).count(), "ceil == std::chrono");
 }
-#ifndef NO_ROUND
 Q q_round()
 {
     REP c = in<REP>(D_ROUND); lim(c, RLIM);
@@ -195,7 +194,6 @@ Q q_reach()
     }
     if (r != f) vf_witness("round goes up");
 }
-#endif
 Q q_abs()
 {
     REP c = nd(); vf_assume(i128(c) != RMIN);
@@ -351,9 +349,7 @@ Q q_tp_casts()
     vf_assert(k_tp_floor(c) == std::chrono::floor<STo>(tp).time_since_epoch().count(), "floor(time_point) == std::chrono");
     vf_assert(k_tp_ceil(c) == std::chrono::ceil<STo>(tp).time_since_epoch().count(), "ceil(time_point) == std::chrono");
     vf_assert(k_tp_cast(c) == k_cast(c) && k_tp_floor(c) == k_floor(c) && k_tp_ceil(c) == k_ceil(c), "time_point_cast/floor/ceil are the duration operations on time_since_epoch()");
-#ifndef NO_ROUND
     vf_assert(k_tp_round(c) == k_round(c), "round(time_point) is round on time_since_epoch()");
-#endif
 }
 #else
 // ------------------------------------------------------------------------------------------ floating-point representations
